@@ -118,6 +118,8 @@ def run(ctx, rep, tier):
     rep.rule("SN", "running minima / maxima start on the neutral side and 'nothing seen' is tested as min > max", 6)
     rep.rule("LA", "per-net accumulators (pin extremes, pin lists) are reset for every net", 8)
     rep.rule("NF", "the model builders drop a net only for having fewer than two pins", 1)
+    rep.rule("MX", "subset topologies push model cell indices (the mapped value), never circuit indices; offsets are not clamped; the builder keeps every pin", 4)
+    check_model_index_space(ctx, rep)
     rep.rule("BK", "the cell -> nets index of the incremental model is counted and filled over the same pins", 1)
     from .common import check_two_pass_buckets
     _fin = [f_ for f_ in ctx.prog.funcs.values() if f_.cls == CQ + "IncrNetModel" and f_.body is not None]
@@ -692,3 +694,72 @@ def check_tp(ctx, rep):
                 rep.holds("TP", f.decl, f, "%s reads only %s-axis accessors" % (f.short, ax.lower()))
             else:
                 rep.unknown("TP", f.decl, f, f.short, "no axis accessor found (shape changed)")
+
+
+# ---- MX --------------------------------------------------------------------
+
+def check_model_index_space(ctx, rep):
+    """MX. (a) The subset topologies translate circuit cell indices into model indices through a map circuit index -> model index: what is
+    pushed into a net's cell list is the *mapped value* (`map[c]`, `it->second`), never the key (`it->first`, the loop's circuit index).
+    (b) pinXOffset / pinYOffset are pure mirror maps `offs` / `size - offs`: a clamp (std::max / min / clamp) on their result moves pins
+    that lie outside the cell outline. (c) IncrNetModelBuilder::addNet appends exactly the pins it is given: the count added to
+    netLimits_ is the size of its parameter."""
+    prog = ctx.prog
+    n = 0
+    for f in prog.funcs.values():
+        if f.cls != CQ + "IncrNetModel" or f.body is None or not f.name.endswith("Topology") or len(f.params) != 2:
+            continue
+        maps = {y.get("id"): y.get("name") for y in walk(f.body) if y.get("kind") == "VarDecl" and "unordered_map<int, int" in qt(y).replace("std::", "") or
+                (y.get("kind") == "VarDecl" and "map<int, int" in qt(y))}
+        if not maps:
+            continue
+        for x in walk(f.body):
+            if x.get("kind") != "CXXMemberCallExpr" or callee_info(x)["name"] not in ("push_back", "emplace_back") or not callee_info(x)["args"]:
+                continue
+            a = callee_info(x)["args"][0]
+            uses_map = any(y.get("kind") == "DeclRefExpr" and (y.get("referencedDecl") or {}).get("id") in maps for y in walk(a))
+            its = [y for y in walk(a) if y.get("kind") == "MemberExpr" and y.get("name") in ("first", "second")]
+            from_iter = []
+            for y in its:
+                for z in walk(y):
+                    if z.get("kind") == "DeclRefExpr":
+                        d = f.unit.by_id.get((z.get("referencedDecl") or {}).get("id"))
+                        init = children(d) if d is not None and d.get("kind") == "VarDecl" else []
+                        if init and any(w.get("kind") == "DeclRefExpr" and (w.get("referencedDecl") or {}).get("id") in maps for w in walk(init[-1])):
+                            from_iter.append(y.get("name"))
+            if not uses_map and not from_iter:
+                continue
+            n += 1
+            what = "%s pushes %s" % (f.short, pretty(canon(a))[:40])
+            if "first" in from_iter:
+                rep.violation("MX", x, f, what, "the *key* of the circuit-index -> model-index map, i.e. the circuit's cell index: the pin is attached to another cell of the model "
+                              "(or to the pseudo-cell of the fixed pins) whenever the subset is not 0..k-1 in order", key="%s|circuit index pushed into the model" % f.short)
+            else:
+                rep.holds("MX", x, f, what, "the mapped model index")
+    if n == 0:
+        rep.unknown("MX", None, None, "subset topologies", "no push of a mapped cell index found (shape changed)")
+    for q in ("Circuit::pinXOffset", "Circuit::pinYOffset"):
+        for f in prog.func(CQ + q, required=False) or []:
+            if f.body is None:
+                continue
+            cl = [y for y in walk(f.body) if y.get("kind") == "CallExpr" and callee_info(y) and callee_info(y)["name"] in ("max", "min", "clamp")]
+            if cl:
+                rep.violation("MX", cl[0], f, "%s clamps its result (%s)" % (f.short, callee_info(cl[0])["name"]), "the offset of a pin is a mirror map of the raw offset, also for "
+                              "pins outside the cell outline: a clamp reports such a pin on the cell edge and the wirelength is no longer the geometric one",
+                              key="%s|offset clamped" % f.short)
+            else:
+                rep.holds("MX", f.decl, f, "%s returns the (mirrored) offset unclamped" % f.short)
+    for f in prog.func(CQ + "IncrNetModelBuilder::addNet", required=False) or []:
+        if f.body is None or not f.params:
+            continue
+        p0 = ("var", f.params[0].get("id"), f.params[0].get("name"))
+        adds = [y for y in walk(f.body) if y.get("kind") == "CXXMemberCallExpr" and callee_info(y)["name"] == "push_back" and
+                "netLimits_" in pretty(canon(callee_info(y)["obj"]))]
+        for y in adds:
+            c = canon(callee_info(y)["args"][0])
+            sizes = [t for t in subterms(c) if isinstance(t, tuple) and t and t[0] == "call" and t[1] == "size"]
+            if sizes and all(t[2:] == (p0,) for t in sizes):
+                rep.holds("MX", y, f, "IncrNetModelBuilder::addNet adds %s pins" % pretty(sizes[0]), "all the pins it is given")
+            else:
+                rep.violation("MX", y, f, "IncrNetModelBuilder::addNet adds %s" % pretty(c)[:50], "not the number of pins it was given: pins are dropped (a cell may carry several pins "
+                              "of one net, each bounds the net) and the model no longer agrees with Circuit::hpwl()", key="IncrNetModelBuilder::addNet|pins dropped")
